@@ -313,6 +313,96 @@ fn run(c: &Case) -> Verdict {
 }
 
 // ---------------------------------------------------------------------------------------------
+// planted covers: outputs built as ORs of cubes from a common pool. The cost of that very cover
+// (shared cubes paid once) is an upper bound of the optimum, for sizes the exact DP cannot reach.
+
+#[derive(Clone, Debug, Hash, Serialize, Deserialize)]
+pub struct PlantedCase {
+    pub kind: Kind,
+    pub n: usize,
+    /// pool of cubes as (positive mask, negative mask), disjoint
+    pub pool: Vec<(u32, u32)>,
+    /// for each output, the indices into the pool (non-empty)
+    pub uses: Vec<Vec<usize>>,
+    pub and_cost: i32,
+    pub xor_cost: i32,
+    pub or_cost: i32,
+}
+
+fn strategy_planted(_t: Tier) -> BoxedStrategy<PlantedCase> {
+    (prop_oneof![Just(Kind::Sop), Just(Kind::Sopes)], prop_oneof![3 => Just(4usize), 5 => Just(5usize), 1 => Just(6usize)], 2usize..=4, prop_oneof![1 => Just(2usize), 3 => Just(3usize), 2 => Just(4usize)], arb_costs())
+        .prop_flat_map(|(kind, n, npool, nout, (a, x, o))| {
+            let vm = (1u32 << n) - 1;
+            // a cube = (support, polarity): 1..n literals (an AND of two draws thins half of the supports)
+            let cube = (any::<u32>(), any::<u32>(), any::<u32>(), any::<bool>()).prop_map(move |(s1, s2, pol, thin)| {
+                let mut sup = (if thin { s1 & s2 } else { s1 }) & vm;
+                if sup == 0 {
+                    sup = 1 << (s2 as usize % n);
+                }
+                (pol & sup, !pol & sup)
+            });
+            (proptest::collection::vec(cube, npool), proptest::collection::vec(proptest::collection::vec(0usize..8, 1..=3), nout))
+                .prop_map(move |(pool, uses)| PlantedCase { kind, n, pool, uses, and_cost: a, xor_cost: x, or_cost: o })
+        })
+        .boxed()
+}
+
+fn run_planted(c: &PlantedCase) -> Verdict {
+    let n = c.n;
+    let (a, x, o) = (c.and_cost as i64, c.xor_cost as i64, c.or_cost as i64);
+    let cube_val = |(p, ng): (u32, u32), m: usize| (m as u32 & p) == p && (m as u32 & ng) == 0;
+    let gates = |(p, ng): (u32, u32)| std::cmp::max((p.count_ones() + ng.count_ones()) as i64, 1) - 1;
+    // outputs and the cost of the planted cover (distinct cubes per output, shared cubes paid once)
+    let mut fs: Vec<Tt> = Vec::new();
+    let mut used = std::collections::BTreeSet::new();
+    let mut planted = 0i64;
+    for u in &c.uses {
+        let idx: std::collections::BTreeSet<usize> = u.iter().map(|i| i % c.pool.len()).collect();
+        let cubes: std::collections::BTreeSet<(u32, u32)> = idx.iter().map(|i| c.pool[*i]).collect();
+        fs.push(Tt::from_fn(n, |m| cubes.iter().any(|q| cube_val(*q, m))));
+        planted += o * (cubes.len() as i64 - 1);
+        for q in cubes {
+            if used.insert(q) {
+                planted += a * gates(q);
+            }
+        }
+    }
+    let luts: Vec<Lut> = fs.iter().map(to_lut).collect();
+    let show = fs.iter().map(|f| f.short()).collect::<Vec<_>>().join(", ");
+    let (what, ret) = match c.kind {
+        Kind::Sop => {
+            let what = format!("optimize_sop_mip([{}], and={}, or={})", show, a, o);
+            let r = match guard(|| optimize_sop_mip(&luts, c.and_cost, c.or_cost)) {
+                Ok(r) => r,
+                Err(p) => return fail("panic:sop", format!("{} panicked: {}", what, p)),
+            };
+            let forms: Vec<(Sop, Soes)> = r.into_iter().map(|s| { let nn = s.num_vars(); (s, Soes::zero(nn)) }).collect();
+            let j = judge_sop_like(&fs, &forms, a, x, o, &what);
+            (what, j)
+        }
+        _ => {
+            let what = format!("optimize_sopes_mip([{}], and={}, xor={}, or={})", show, a, x, o);
+            let r = match guard(|| optimize_sopes_mip(&luts, c.and_cost, c.xor_cost, c.or_cost)) {
+                Ok(r) => r,
+                Err(p) => return fail("panic:sopes", format!("{} panicked: {}", what, p)),
+            };
+            let j = judge_sop_like(&fs, &r, a, x, o, &what);
+            (what, j)
+        }
+    };
+    let ret = ret?;
+    if ret.cost > planted {
+        let cover: Vec<String> = used.iter().map(|(p, ng)| format!("{:0w$b}/{:0w$b}", p, ng, w = n)).collect();
+        return fail(
+            format!("planted:suboptimal:{:?}", c.kind).to_lowercase(),
+            format!("{}: the returned forms cost {} but the outputs were built as ORs of the cubes (pos/neg masks) [{}], a cover of cost {}", what, ret.cost, cover.join(", "), planted),
+        );
+    }
+    let shared3 = c.pool.iter().filter(|q| fs.len() >= 3 && c.uses.iter().filter(|u| u.iter().any(|i| c.pool[i % c.pool.len()] == **q)).count() >= 3).count();
+    pass(ret.terms_per_output.iter().any(|t| *t >= 2), vec![format!("kind:{:?}", c.kind), format!("n:{}", n), format!("outputs:{}", fs.len()), format!("cubes-shared-by-3:{}", std::cmp::min(shared3, 2))])
+}
+
+// ---------------------------------------------------------------------------------------------
 // metamorphic: variables a function does not depend on do not change the optimum
 
 #[derive(Clone, Debug, Hash, Serialize, Deserialize)]
@@ -552,6 +642,14 @@ pub fn def() -> PropDef {
             exhaustive: Some(enumerate),
             exhaustive_note: "all single functions n<=2 (quick) / n<=3 (thorough); all ordered pairs n<=1 / n<=2; 3 optimizers",
             run,
+        }), Box::new(Sub {
+            name: "planted",
+            rule: "planted covers (SOP and SOPES): 2..4 outputs over n in 4..=6 variables are built as ORs of 1..3 cubes drawn from a common pool of 2..4 cubes (so that cubes are shared, also by three outputs); the returned forms must be valid and must not cost more than the planted cover itself (shared cubes paid once) — a sound upper bound of the optimum at sizes the exact DP cannot reach. Non-trivial = some output needs >= 2 terms.",
+            strategy: strategy_planted,
+            cases: (500, 20_000),
+            exhaustive: None,
+            exhaustive_note: "",
+            run: run_planted,
         })],
     }
 }
